@@ -260,6 +260,8 @@ MUTANTS = [
     ('C11', 'aggregation_layer.py', "    config = dict(config)\n", '', 'S12', 'from_config pops from the caller dict'),
     ('C03', 'premade_lib.py', '                  feature_config.monotonicity, (list, tuple)) else None,', '                  feature_config.monotonicity, list) else None,', 'W6', 'tuple pairs not forwarded to the calibrator'),
     ('C01', 'lattice_lib.py', '    final_projection = final_projection * scale + offset\n', '    final_projection = (final_projection - output_min) * scale + offset + output_min * scale\n', 'R2', 'kernel translated by the bound before scaling'),
+    ('C16', 'lattice_lib.py', '    if not monotonicities or monotonicities[main_dim] != 1:', '    if monotonicities[main_dim] != 1:', 'N1', 'subscript of possibly-None monotonicities'),
+    ('C16', 'lattice_lib.py', '      list(edgeworth_trusts or []) + list(trapezoid_trusts or [])) or []', '      (edgeworth_trusts or []) + (trapezoid_trusts or [])) or []', 'T3', 'tuple trusts concatenated with a list'),
     ('C17', 'premade_lib.py', '        # going out of bound on the lattice\n        addition_score = -2.0',
      '        # going out of bound on the lattice\n        addition_score = -1.0', 'W7', 'full lattice ties with a repeat'),
     ('C17', 'premade_lib.py', '        # going out of bound on the lattice\n        addition_score = -2.0',
